@@ -770,7 +770,8 @@ class eval_abs(object):
 
             for xx, start, stop in args:
                 if isinstance(xx, ExprInt):
-                    a = xx.arg
+                    # plain integer: shifting a fixed-width value would drop its high bits
+                    a = int(xx.arg)
 
                     mask = (1<<(stop-start))-1
                     a&=mask
@@ -781,7 +782,9 @@ class eval_abs(object):
                     a = xx
                     mask = (1<<(stop-start))-1
                     total_bit+=stop-start
-                    mycond, mysrc1, mysrc2 = a.cond, a.src1.arg&mask, a.src2.arg&mask
+                    mycond = a.cond
+                    mysrc1 = (int(a.src1.arg)&mask)<<start
+                    mysrc2 = (int(a.src2.arg)&mask)<<start
 
             mysrc1|=rez
             mysrc2|=rez
@@ -800,7 +803,8 @@ class eval_abs(object):
         rez = 0
         total_bit = 0
         for xx, start, stop in args:
-            a = xx.arg
+            # plain integer: shifting a fixed-width value would drop its high bits
+            a = int(xx.arg)
             mask = (1<<(stop-start))-1
             a&=mask
             a<<=start#e.args[i][1]
